@@ -48,7 +48,7 @@ func (c appContext) Err() error {
 func (appContext) Value(any) any { return nil }
 
 var c20Ops = []string{"read", "write", "ping", "closeread", "netconn-rw", "netconn-deadline", "abandon-reader", "abandon-writer", "wsjson-write", "wsjson-read", "write-big"}
-var c20Endings = []string{"close", "closenow", "peer-close", "violation", "read-limit", "ctx-expiry", "transport-eof", "transport-reset", "transport-cut-midframe", "peer-flood"}
+var c20Endings = []string{"close", "closenow", "peer-close", "violation", "read-limit", "ctx-expiry", "transport-eof", "transport-reset", "transport-cut-midframe", "peer-flood", "peer-stalls-in-next-header"}
 
 var libCreated = regexp.MustCompile(`created by nhooyr\.io/websocket[./(]`)
 
@@ -266,6 +266,25 @@ func runC20Once(t fataler, c c20Case, iter int) string {
 		lc.End.CloseWrite(memconn.ErrReset)
 		if !closeReadOn {
 			do(func() { conn.Read(base) })
+		}
+	case "peer-stalls-in-next-header":
+		// a complete data message and the first k bytes of the next frame's header arrive in one piece (2..14 bytes:
+		// short of, at, or beyond the point where a header with an extended length is complete); then the peer is
+		// silent, with the transport open
+		f1 := ref.Frame{Fin: true, Opcode: ref.OpBinary, Payload: make([]byte, 50)}
+		f2 := ref.Frame{Fin: true, Opcode: ref.OpBinary, Payload: make([]byte, []int{300, 70000, 100}[iter%3])}
+		_, b1, _ := finishMasking([]ref.Frame{f1}, c.Mode.Client)
+		_, b2, _ := finishMasking([]ref.Frame{f2}, c.Mode.Client)
+		k := 2 + (iter/3)%13
+		if k > len(b2)-len(f2.Payload) {
+			k = len(b2) - len(f2.Payload) - 1
+		}
+		p.sendRaw(append(append([]byte(nil), b1...), b2[:k]...))
+		if !closeReadOn {
+			do(func() {
+				conn.Read(base)
+				conn.Read(base)
+			})
 		}
 	case "transport-cut-midframe":
 		f := ref.Frame{Fin: true, Opcode: ref.OpBinary, Payload: make([]byte, 300)}
